@@ -22,7 +22,7 @@ from symx import calmodel
 from harness import common
 
 BOUNDS = {
-    "quick": {"dispatch": "31 options x 3 positions, one option at a time on top of a fixed command line", "vectors": "6 shapes, numerals = decimals with <= 3 places in [-20, 20], <= 6 steps; date ranges of <= 6 days around 2024-02-28 and 2023-12-30",
+    "quick": {"dispatch": "31 options x 3 positions, one option at a time on top of a fixed command line", "vectors": "7 shapes, numerals = decimals with <= 3 places in [-20, 20], <= 6 steps; date ranges of <= 6 days around 2024-02-28 and 2023-12-30",
               "validation": "22 malformed command lines with symbolic values where a number is involved",
               "wellformed": "all 1 554 character-class strings of <= 4 characters (6 classes), digits symbolic",
               "listing": "10 --list-* command lines x 2 input orders on two overlapping concrete inputs"},
@@ -386,7 +386,7 @@ def h_listing():
     return fn
 
 
-SHAPES = ["a", "a,b", "a:b", "a:s:b", "a,b:c", "a:s:b,c"]
+SHAPES = ["a", "a,b", "a:b", "a:s:b", "a,b:c", "a:s:b,c", "a:s:b,c:d"]
 
 
 def h_vectors(maxsteps):
